@@ -41,7 +41,7 @@ theorem sanitize_idempotent_partial (p : NumSpec α) (v w : Val α) (hok : defau
 theorem sanitize_result_in_range_partial (p : NumSpec α) (v w : Val α) (hok : defaultOkB p = true)
     (hv : intViolates p v = false) (h : sanitize p v = .ok w) :
     (∃ x, w = .flt x ∧ (p.nonZero = true → x < zero ∨ (zero : α) < x) ∧ (p.nonPos = true → ¬ (zero : α) < x) ∧
-      (p.nonNeg = true → ¬ x < (zero : α))) ∨ (w = .nan ∧ p.default = .none ∧ p.mandatory = false) := by
+      (p.nonNeg = true → ¬ x < (zero : α))) ∨ (w = .nan ∧ (p.default = .none ∨ p.default = .nan) ∧ p.mandatory = false) := by
   cases sanitize_stored p v w hok hv h with
   | good x hg => exact Or.inl ⟨x, rfl, hg⟩
   | nan hd hm => exact Or.inr ⟨rfl, hd, hm⟩
